@@ -777,9 +777,12 @@ class ContextStateTransaction(_TransactionBase):
                 tmp.descriptor_container = entity.descriptor
                 tmp.DescriptorVersion = entity.descriptor.DescriptorVersion
                 if adjust_version_counter:
+                    # the entity can be an outdated copy, the descriptor in mdib has the current version
+                    tmp.DescriptorVersion = self._mdib.descriptions.handle.get_one(entity.handle).DescriptorVersion
                     self._mdib.context_states.set_version(tmp)
             elif adjust_version_counter:
                 tmp.StateVersion = old_state.StateVersion + 1
+                tmp.DescriptorVersion = old_state.DescriptorVersion
 
             self._state_updates[state_container.Handle] = TransactionItem(old=old_state, new=tmp)
 
